@@ -38,7 +38,12 @@ type vRowWriter struct {
 }
 
 func vNewRows(t *testing.T, name string) *vRowWriter {
-	f, err := os.Create(filepath.Join(vOutDir(t), name))
+	flags := os.O_WRONLY | os.O_CREATE | os.O_TRUNC
+	if os.Getenv("VERIF_APPEND") == "1" {
+		// the shard is resumed after a crash of the process: completed scenarios are kept
+		flags = os.O_WRONLY | os.O_CREATE | os.O_APPEND
+	}
+	f, err := os.OpenFile(filepath.Join(vOutDir(t), name), flags, 0o644)
 	if err != nil {
 		t.Fatal(err)
 	}
@@ -52,6 +57,7 @@ func (w *vRowWriter) emit(v any) {
 	}
 	w.bw.Write(b)
 	w.bw.WriteByte('\n')
+	w.bw.Flush() // a crash of the process must not lose completed rows
 	w.n++
 }
 
